@@ -55,6 +55,11 @@ POOL = [
 # the same identifiers (x, y, f, g, K) in *different roles* across programs: any memo / cache keyed by a bare name,
 # by a line number or by a node position that survives a conversion shows up as a differing result
 POOL += [
+    # the same spelling N is a global read by a class-body lambda / generator in one program and a closure variable read by a
+    # class-body lambda / generator in another (and both in one program): what one class learns must not reach another
+    "N = 10\nclass Cfg:\n    scale = lambda self, v: v * N\n    sizes = tuple(N * i for i in (1, 2, 3))\nprint(Cfg().scale(2), Cfg.sizes)\n",
+    "def make(N):\n    class Grower:\n        grow = lambda self, v: v * N\n        sizes = tuple(N * i for i in (1, 2, 3))\n    return Grower\nG = make(3)\nprint(G().grow(2), G.sizes)\n",
+    "N = 10\nclass Cfg:\n    scale = lambda self, v: v * N\ndef make(N):\n    class Grower:\n        grow = lambda self, v: v * N\n        sizes = [N * i for i in (1, 2)]\n    return Grower\nprint(Cfg().scale(2), make(3)().grow(2), make(4).sizes)\n",
     "x = 1\ndef f():\n    return x\nclass K:\n    y = x\nprint(f(), K.y)\n",
     "x = 1\ndef f():\n    x = 5\n    def g():\n        global x\n        x += 1\n        return x\n    return g(), x\nprint(f(), x)\n",
     "def f(x):\n    def g():\n        nonlocal x\n        x += 1\n        return x\n    return g() + x\nprint(f(1))\n",
